@@ -3,6 +3,7 @@ C16 — "every … shading … it names is defined in the resource dictionary in
 shading in one dictionary and names it in another stream: `Gradient.draw` (Model/GradientDraw).
 -/
 import WpModel.Lemmas.GradientDraw
+import WpModel.Lemmas.PdfMono
 
 namespace Wp.C16
 open Wp Wp.Pdf
@@ -111,6 +112,43 @@ theorem document_resources_defined (mark : Bool) (pages : Nat) (items : List GIt
   have hok := runItems_ok items _ w' (init_ok mark pages) hs hrun
   rw [badRefs_nil_iff w' hok.resIdx]
   exact fun i s r hsi hr => hok.good i s r hsi hr
+
+/-- **resources_only_grow**: from *any* document state on (the start of `generate_pdf` or any point of the painting),
+along any run of document calls whose callers pass registered names — API calls on any stream, `add_group`,
+`add_pattern`, `add_shading`, `add_image`, `set_alpha_state`, `clone`, new pages, the assigned soft-mask content —
+every stream stays on the resource dictionary it was created with, and every dictionary only grows: each graphics-state
+key, XObject key, shading and pattern defined at that point is still defined at the end ("entries are never removed",
+the fact the fresh keys `s{len}` / `x{len}` / `p{len}` and the late `_use_references` pass rely on). -/
+theorem resources_only_grow (w w' : World) (calls : List WCall) (hs : ScopedRun w calls)
+    (hrun : w.run calls = .ok w') :
+    (∀ (i : Nat) (s : SState), w.streams[i]? = some s → ∃ s', w'.streams[i]? = some s' ∧ s'.res = s.res) ∧
+    (∀ (j : Nat) (r : Res), w.res[j]? = some r → ∃ r', w'.res[j]? = some r' ∧
+      (∀ k, r.hasG k = true → r'.hasG k = true) ∧ (∀ k, r.hasX k = true → r'.hasX k = true) ∧
+      r.shading ≤ r'.shading ∧ r.pattern.length ≤ r'.pattern.length) := by
+  have hm := World.run_mono calls w w' hs hrun
+  refine ⟨hm.streams, ?_⟩
+  intro j r hr
+  obtain ⟨r', hr', hle⟩ := hm.res j r hr
+  exact ⟨r', hr', hle.g, hle.x, hle.sh, hle.pat⟩
+
+/-- Non-vacuity: a page registers a shading and paints it, then a group and a pattern are created: the page keeps
+dictionary 0, whose shading is still there at the end. -/
+example : ScopedRun (World.init false 1) [.addShading 0, .on 0 (.paintShading 0), .addGroup 0, .addPattern 0] ∧
+    (match (World.init false 1).run [.addShading 0, .on 0 (.paintShading 0), .addGroup 0, .addPattern 0] with
+     | .ok w => (w.streams.map (·.res), w.res.map (·.shading), w.badRefs)
+     | .error _ => ([], [], [0])) = ([0, 1, 2], [1, 0, 0], []) := by
+  refine ⟨?_, by decide +kernel⟩
+  simp only [ScopedRun, WCall.scoped, Call.scoped]
+  refine ⟨trivial, ?_⟩
+  intro w1 h1
+  simp [World.step, World.init] at h1; subst h1
+  refine ⟨?_, ?_⟩
+  · intro s r hs hr
+    simp at hs; subst hs
+    simp at hr; subst hr
+    decide
+  · intro w2 _
+    exact ⟨trivial, fun w3 _ => ⟨trivial, fun _ _ => trivial⟩⟩
 
 /-- Non-vacuity, on the shape of the seeded regression C16-8: the page stream already owns a shading (`s0`); a
 translucent gradient is drawn on it.  The colour shading is `s1` on the page, the alpha shading `s0` in the mask group,
